@@ -37,7 +37,7 @@ def make_replayer(run):
     cache = {}
 
     def replay(o):
-        if "run" not in o.name:
+        if "run" not in o.name and ":refusal:" not in o.name:
             return None
         if "d" not in cache:
             cache["d"] = run_child(run.repo.root, "event_diff.py", [])
@@ -45,13 +45,16 @@ def make_replayer(run):
         if d.get("n_failures"):
             parts = o.name.split(".")
             cls = "fickle." + parts[1] if len(parts) > 1 else ""
-            names = [n for n, c in run.repo.live["OPCODES_BY_NAME"].items() if c == cls]
+            names = [n for n, c in run.repo.live["OPCODES_BY_NAME"].items() if c == cls] or [n for n in REGISTRY_OPCODES if f":{n}-is-refused" in o.name]
             mine = [f for f in d["failures"] if names and names[0] in f.get("opcodes", [])] or d["failures"]
             f = mine[0]
             return {"reproduced": True, "failing_input_hex": f["bytes"], "program": f["program"], "missing": f["missing"], "decompiled": f["decompiled"],
                     "how": "pickle._Unpickler (inert find_class) event log vs top-level statements of the decompiled module"}
         return {"reproduced": False, "searched": {k: v for k, v in d.items() if k != "failures"}}
     return replay
+
+
+REGISTRY_OPCODES = ("EXT1", "EXT2", "EXT4")
 
 
 def build(run: Run):
@@ -82,6 +85,16 @@ def build(run: Run):
             silent.append(name)
             run.syntactic(f"{cls}.run:refusal:no-silent-no-op", "post", nil_effect, f"{name}: run() does nothing; VM effect {info['before']} -> {info['after']}",
                           where=cls, meta={"clause": "an opcode whose run() is a no-op has no VM effect (otherwise it must be refused)"})
+    # opcodes whose VM effect resolves a global the pickle does not name (the extension registry): fickling cannot anchor an import it does
+    # not know, so the only behaviour the statement allows is refusal — at parse (no class) or by a run() without a normal exit
+    for name in REGISTRY_OPCODES:
+        cls = live["OPCODES_BY_NAME"].get(name)
+        ok = cls is None or f"{cls}.run" in refusing
+        run.syntactic(f"fickle:refusal:{name}-is-refused", "exc", ok,
+                      "no class: refused at parse by Opcode.__new__" if cls is None else f"class {cls}: run() {'has no normal exit' if ok else 'returns normally'}",
+                      where=cls or "fickle.Opcode.__new__",
+                      meta={"clause": f"{name} makes the VM resolve (and possibly call) a global taken from copyreg's extension registry; it is refused rather "
+                                      f"than decompiled with that resolution left out"})
     unsupported = sorted(set(live["pickletools"]) - set(live["OPCODES_BY_NAME"]))
     # Opcode.__new__ (the parse-time dispatcher): the only way it returns for `cls is Opcode` is through OPCODES_BY_NAME[info.name];
     # otherwise it raises — checked structurally on its AST (its **kwargs plumbing is outside the symbolic subset)
